@@ -36,7 +36,47 @@ func (r *blockReader) Read(offset int64, key string) (string, bool) {
 	return "", false
 }
 
+// checkC12 wraps the index check with a two-object history: an index built
+// earlier and kept alive must answer the same after the case built another one.
 func checkC12(c *Case, s *Stats) error {
+	var ekeys []string
+	for i := 0; i < 40; i++ {
+		ekeys = append(ekeys, fmt.Sprintf("rec/%02d/%s", i/4, strings.Repeat("s", i%5)+string([]byte{byte('a' + i%4)})))
+	}
+	ekeys = uniqSorted(ekeys)
+	erd := &blockReader{blocks: map[int64][]record{}}
+	var eitems []index.OffsetIndexItem
+	for i, k := range ekeys {
+		off := int64(i/3) * 4096
+		eitems = append(eitems, index.OffsetIndexItem{Key: k, Offset: off})
+		erd.blocks[off] = append(erd.blocks[off], record{k, "earlier-" + k})
+	}
+	var esi *index.SlimIndex
+	err := guard("NewSlimIndex (earlier index)", func() error {
+		var e error
+		esi, e = index.NewSlimIndex(eitems, erd)
+		if e != nil {
+			return viol("build", "NewSlimIndex rejected sorted records: %v", e)
+		}
+		return nil
+	})
+	if err != nil {
+		return err
+	}
+	if err := checkC12inner(c, s); err != nil {
+		return err
+	}
+	return guard("RangeGet on an index built earlier", func() error {
+		for _, k := range ekeys {
+			if v, f := esi.RangeGet(k); !f || v != "earlier-"+k {
+				return viol("live-index-changed", "an index that was built earlier and is still alive: RangeGet(%s) = (%q,%v) after a later build, want its own record", q(k), v, f)
+			}
+		}
+		return nil
+	})
+}
+
+func checkC12inner(c *Case, s *Stats) error {
 	keys := c.keys()
 	block := c.Block
 	if block < 1 {
